@@ -29,7 +29,6 @@ import (
 	"github.com/containerd/nri/pkg/stub"
 	"github.com/containerd/ttrpc"
 	"github.com/sirupsen/logrus"
-	"google.golang.org/grpc/codes"
 	"google.golang.org/grpc/status"
 	"google.golang.org/protobuf/encoding/prototext"
 	"google.golang.org/protobuf/proto"
@@ -102,6 +101,8 @@ type C15Req struct {
 	Upd  int    `json:"upd"`           // scripted updates: index into Updates, -1 = nil
 	Fail bool   `json:"fail"`          // the handler fails ...
 	Err  string `json:"err,omitempty"` // ... with this text
+	// ... and this form (nil = errors.New(text)), see errform_test.go
+	ErrForm *ErrSpec `json:"err_form,omitempty"`
 }
 
 // C15Chunk is one SynchronizeRequest message: indices into the pod and container pools.
@@ -124,12 +125,13 @@ type C15Session struct {
 	// The Synchronize request after Configure, sent as len(SyncChunks) messages (none when
 	// empty). All but the last carry More=true; the last one too unless SyncFinal - then the
 	// runtime goes away in the middle of the synchronization: no requests, the session ends.
-	SyncChunks []C15Chunk `json:"sync_chunks,omitempty"`
-	SyncFinal  bool       `json:"sync_final,omitempty"`
-	SyncUpd    int        `json:"sync_upd"`            // scripted updates of the Synchronize handler: index into Updates, -1 = nil
-	SyncFail   bool       `json:"sync_fail,omitempty"` // the Synchronize handler fails ...
-	SyncErr    string     `json:"sync_err,omitempty"`  // ... with this text
-	Reqs       []C15Req   `json:"reqs"`
+	SyncChunks  []C15Chunk `json:"sync_chunks,omitempty"`
+	SyncFinal   bool       `json:"sync_final,omitempty"`
+	SyncUpd     int        `json:"sync_upd"`                // scripted updates of the Synchronize handler: index into Updates, -1 = nil
+	SyncFail    bool       `json:"sync_fail,omitempty"`     // the Synchronize handler fails ...
+	SyncErr     string     `json:"sync_err,omitempty"`      // ... with this text
+	SyncErrForm *ErrSpec   `json:"sync_err_form,omitempty"` // ... and this form
+	Reqs        []C15Req   `json:"reqs"`
 	// How the session ends: "close" = the runtime end closes the connection, "stop" = the
 	// plugin calls Stop(). (A session whose configuration failed has ended already.)
 	End string `json:"end"`
@@ -398,6 +400,23 @@ func genErrText(t *rapid.T) string {
 	).Draw(t, "errtext")
 }
 
+// genErrForm draws the form of a handler error: nil (plain) in a fifth of the cases.
+func genErrForm(t *rapid.T) *ErrSpec {
+	f := rapid.SampledFrom([]string{"plain", "plain", "plain", "plain", "wrap", "wrap", "wrap", "bare", "bare", "status", "status", "wrapstatus",
+		"join", "custom", "customis", "nilptr", "ctxtimeout", "ctxtimeoutwrap", "ctxcancel"}).Draw(t, "errform")
+	if f == "plain" {
+		return nil
+	}
+	sp := &ErrSpec{Form: f}
+	switch f {
+	case "wrap", "bare", "join", "custom", "customis":
+		sp.Sentinel = rapid.SampledFrom(sentinelNames).Draw(t, "errsentinel")
+	case "status", "wrapstatus":
+		sp.Code = rapid.IntRange(1, 16).Draw(t, "errcode")
+	}
+	return sp
+}
+
 // bitsOf lists the events of a mask.
 func bitsOf(m api.EventMask) []api.Event {
 	var out []api.Event
@@ -515,6 +534,7 @@ func genSession(t *rapid.T, ent typeEntry, c *C15Case, nsess int) C15Session {
 		if maybe(t, "syncfail", 5) {
 			s.SyncFail = true
 			s.SyncErr = genErrText(t)
+			s.SyncErrForm = genErrForm(t)
 		}
 	}
 	implEv, unimplEv := bitsOf(impl), bitsOf(unimpl)
@@ -553,6 +573,7 @@ func genSession(t *rapid.T, ent typeEntry, c *C15Case, nsess int) C15Session {
 		if maybe(t, "fail", 4) {
 			r.Fail = true
 			r.Err = genErrText(t)
+			r.ErrForm = genErrForm(t)
 		}
 		// the shape of the message: mostly the documented one (pod events: pod only; container
 		// events and requests: pod and container), but every optional part may be absent or
@@ -835,18 +856,10 @@ func stepCtx() (context.Context, context.CancelFunc) {
 	return context.WithTimeout(context.Background(), stepTimeout)
 }
 
-// slow tells whether an RPC error is the step watchdog.
-func slow(err error) bool {
-	if err == nil {
-		return false
-	}
-	if errors.Is(err, context.DeadlineExceeded) {
-		return true
-	}
-	if st, ok := status.FromError(err); ok && st.Code() == codes.DeadlineExceeded {
-		return true
-	}
-	return false
+// slow tells whether a failed RPC hit the step watchdog: only the step's own context decides
+// (a handler may legitimately answer with a DeadlineExceeded error of its own).
+func slow(ctx context.Context, err error) bool {
+	return err != nil && ctx.Err() != nil
 }
 
 // ---- running a case ---------------------------------------------------------------------------
@@ -1094,6 +1107,40 @@ func runC15Once(c C15Case) (out ev.Outcome, overloaded bool) {
 	return cr.finish(o), false
 }
 
+func specOf(p *ErrSpec) ErrSpec {
+	if p == nil {
+		return ErrSpec{}
+	}
+	return *p
+}
+
+// judgeError: "when the handler fails, its error [is] returned to the runtime unchanged" - the
+// runtime end must get an error (never a success), as an answer of the plugin (a status error,
+// not a broken transport), carrying the handler's text; as far as the wire allows "unchanged"
+// to be observed: the message is the error's own (its gRPC status message if it has one, else
+// its Error() text).
+func (cr *caseRun) judgeError(sp ErrSpec, text, carries, wireMsg string, rerr error, got proto.Message) string {
+	cr.classes[sp.class()] = true
+	if sp.touchesContext() {
+		cr.classes["errform:context-error-in-chain"] = true
+	}
+	desc := fmt.Sprintf("handler failed with %q (form %s %s %d)", text, sp.class(), sp.Sentinel, sp.Code)
+	if rerr == nil {
+		return fmt.Sprintf("%s, the runtime got success %s", desc, short(got))
+	}
+	st, ok := status.FromError(rerr)
+	if !ok {
+		return fmt.Sprintf("%s, the runtime got a transport error %v", desc, rerr)
+	}
+	if !strings.Contains(st.Message(), carries) {
+		return fmt.Sprintf("%s, the runtime received %q which does not carry %q", desc, st.Message(), carries)
+	}
+	if st.Message() != wireMsg {
+		return fmt.Sprintf("%s, the runtime received %q, want %q", desc, st.Message(), wireMsg)
+	}
+	return ""
+}
+
 // runSession drives and judges one session (registration, configuration, requests).
 func (cr *caseRun) runSession(k int, s *session) (verdict, string) {
 	c, ent, classes, rec := cr.c, cr.ent, cr.classes, cr.si.rec
@@ -1143,8 +1190,9 @@ func (cr *caseRun) runSession(k int, s *session) (verdict, string) {
 		Config: sc.Config, RuntimeName: sc.Runtime, RuntimeVersion: sc.Version,
 		RegistrationTimeout: 5000, RequestTimeout: 2000,
 	})
+	expired := slow(ctx, cerr)
 	cancel()
-	if slow(cerr) {
+	if expired {
 		return vSlow, "Configure"
 	}
 	cr.note("%s Configure(handler returns mask=%s fail=%v %q) -> events=%s err=%v", tag, maskStr(api.EventMask(sc.CfgMask)), sc.CfgFail, sc.CfgErr, rplMask(rpl), cerr)
@@ -1256,16 +1304,19 @@ func (cr *caseRun) runSession(k int, s *session) (verdict, string) {
 		if sc.SyncUpd >= 0 {
 			upd = c.Updates[sc.SyncUpd]
 		}
-		var herr error
+		var mkErr func() error
+		var carries, wireMsg string
 		if sc.SyncFail {
-			herr = errors.New(sc.SyncErr)
+			mkErr, carries = specOf(sc.SyncErrForm).build(sc.SyncErr)
+			wireMsg = wireMessage(mkErr())
 		}
-		rec.script(scripted{Updates: upd, Err: herr})
+		rec.script(scripted{Updates: upd, MkErr: mkErr})
 		before := len(rec.snapshot())
 		ctx, cancel := stepCtx()
 		srpl, serr := s.plugin.Synchronize(ctx, req)
+		expired := slow(ctx, serr)
 		cancel()
-		if slow(serr) {
+		if expired {
 			return vSlow, "Synchronize"
 		}
 		inv := rec.snapshot()[before:]
@@ -1302,15 +1353,8 @@ func (cr *caseRun) runSession(k int, s *session) (verdict, string) {
 		}
 		if sc.SyncFail {
 			classes["script:sync-error"] = true
-			if serr == nil {
-				return fail("%s: handler failed with %q, the runtime got success %s", where, sc.SyncErr, short(srpl))
-			}
-			st, ok := status.FromError(serr)
-			if !ok {
-				return fail("%s: handler failed with %q, the runtime got a transport error %v", where, sc.SyncErr, serr)
-			}
-			if st.Message() != sc.SyncErr {
-				return fail("%s: handler failed with %q, the runtime received %q", where, sc.SyncErr, st.Message())
+			if why := cr.judgeError(specOf(sc.SyncErrForm), sc.SyncErr, carries, wireMsg, serr, srpl); why != "" {
+				return fail("%s: %s", where, why)
 			}
 			continue
 		}
@@ -1369,11 +1413,13 @@ func (cr *caseRun) runSession(k int, s *session) (verdict, string) {
 		if r.Upd >= 0 {
 			upd = c.Updates[r.Upd]
 		}
-		var herr error
+		var mkErr func() error
+		var carries, wireMsg string
 		if r.Fail {
-			herr = errors.New(r.Err)
+			mkErr, carries = specOf(r.ErrForm).build(r.Err)
+			wireMsg = wireMessage(mkErr())
 		}
-		rec.script(scripted{Adjust: adj, Updates: upd, Err: herr})
+		rec.script(scripted{Adjust: adj, Updates: upd, MkErr: mkErr})
 		before := len(rec.snapshot())
 
 		var (
@@ -1409,8 +1455,9 @@ func (cr *caseRun) runSession(k int, s *session) (verdict, string) {
 			got, rerr = rp, err
 			want, empty = &api.Empty{}, &api.Empty{}
 		}
+		expired := slow(ctx, rerr)
 		cancel()
-		if slow(rerr) {
+		if expired {
 			return vSlow, fmt.Sprintf("request #%d %s", i, evName(e))
 		}
 		inv := rec.snapshot()[before:]
@@ -1497,15 +1544,8 @@ func (cr *caseRun) runSession(k int, s *session) (verdict, string) {
 		// returned to the runtime unchanged"
 		if r.Fail {
 			classes["script:error"] = true
-			if rerr == nil {
-				return fail("%s: handler failed with %q, the runtime got success %s", where, r.Err, short(got))
-			}
-			st, ok := status.FromError(rerr)
-			if !ok {
-				return fail("%s: handler failed with %q, the runtime got a transport error %v", where, r.Err, rerr)
-			}
-			if st.Message() != r.Err {
-				return fail("%s: handler failed with %q, the runtime received %q", where, r.Err, st.Message())
+			if why := cr.judgeError(specOf(r.ErrForm), r.Err, carries, wireMsg, rerr, got); why != "" {
+				return fail("%s: %s", where, why)
 			}
 			continue
 		}
@@ -1711,6 +1751,21 @@ func TestExh_C15(t *testing.T) {
 			Updates: [][]*api.ContainerUpdate{{{ContainerId: "ctr0-exh", Linux: &api.LinuxContainerUpdate{Resources: &api.LinuxResources{Pids: &api.LinuxPids{Limit: 9}}}}}},
 		}
 	}
+	// the forms of a failing handler's error: every form x sentinel / code, spread over the
+	// types and event kinds round-robin (each combination meets each event kind many times)
+	specs := allErrSpecs()
+	formReqs := func(ti int) []C15Req {
+		var out []C15Req
+		for e := int32(1); e <= 13; e++ {
+			sp := specs[(ti*13+int(e))%len(specs)]
+			doc := 0
+			if podEvent(api.Event(e)) {
+				doc = -1
+			}
+			out = append(out, C15Req{Event: e, Ctr: doc, Ovh: 0, Res: 1, Adj: 0, Upd: 0, Fail: true, Err: fmt.Sprintf("exh-form-%d", e), ErrForm: &sp})
+		}
+		return out
+	}
 	sessions, cases := 0, 0
 	runOne := func(c C15Case) {
 		raw := ev.Snapshot(c)
@@ -1756,7 +1811,7 @@ func TestExh_C15(t *testing.T) {
 			if ent.HasConfigure {
 				m1, m2 = lo, ent.Mask
 			}
-			runOne(mk(ti, withSync(sess(m1, "close", okReqs, failReqs, shapeReqs), true, false, one)))
+			runOne(mk(ti, withSync(sess(m1, "close", okReqs, failReqs, shapeReqs, formReqs(ti)), true, false, one)))
 			runOne(mk(ti,
 				withSync(sess(m2, "stop", okReqs), true, false, ch([]int{0}, []int{0}), ch([]int{1}, []int{1, 1})),
 				withSync(sess(m1, "close", okReqs), true, false, ch([]int{1}, nil)),
@@ -1768,14 +1823,14 @@ func TestExh_C15(t *testing.T) {
 			continue
 		}
 		if !ent.HasConfigure {
-			runOne(mk(ti, withSync(sess(0, "close", okReqs, failReqs, shapeReqs), true, false, one)))
+			runOne(mk(ti, withSync(sess(0, "close", okReqs, failReqs, shapeReqs, formReqs(ti)), true, false, one)))
 			// restart: three connections of one stub, ended both ways (no Synchronize handler:
 			// every synchronization message just succeeds)
 			runOne(mk(ti, withSync(sess(0, "stop", okReqs), true, false, one, one), withSync(sess(0, "close", failReqs), false, false, one), sess(0, "stop", okReqs)))
 			continue
 		}
 		for _, m := range []api.EventMask{0, ent.Mask} {
-			runOne(mk(ti, sess(m, "close", okReqs, failReqs, shapeReqs)))
+			runOne(mk(ti, sess(m, "close", okReqs, failReqs, shapeReqs, formReqs(ti))))
 		}
 		for _, e := range implEv {
 			if evbit(e) == ent.Mask {
@@ -1817,7 +1872,7 @@ func TestExh_C15(t *testing.T) {
 		}
 	}
 	r.SetExtra("exhaustive", map[string]any{
-		"subdomain": "every generated plugin type (512: 128 handler sets x with/without Configure x with/without Synchronize) x each of the 13 event kinds (succeeding and failing handler; documented message shape, container present/absent the other way round, pod/container/resources absent and present-but-empty); for the types without Synchronize handler: Configure returning 0, the implemented mask, each single implemented event, implemented+each single unimplemented event, and, for every third handler set, about twenty masks using bits 13..31 (all ones, the sign bit, bits 13..30; alone and on top of handled / unhandled events); per type restart sequences on one stub (3 connections; with Configure: subset -> 0 -> complementary subset, complementary subset -> subset -> implemented mask, rejected -> error -> implemented mask); for the types with Synchronize handler one stub synchronized six times in a row: split -> one message -> cut short after 3 messages -> split with failing handler -> cut short after 1 message -> one message",
+		"subdomain": "every generated plugin type (512: 128 handler sets x with/without Configure x with/without Synchronize) x each of the 13 event kinds (succeeding and failing handler; documented message shape, container present/absent the other way round, pod/container/resources absent and present-but-empty; the failing handler's error in every form x sentinel / status code, round-robin over types and kinds); for the types without Synchronize handler: Configure returning 0, the implemented mask, each single implemented event, implemented+each single unimplemented event, and, for every third handler set, about twenty masks using bits 13..31 (all ones, the sign bit, bits 13..30; alone and on top of handled / unhandled events); per type restart sequences on one stub (3 connections; with Configure: subset -> 0 -> complementary subset, complementary subset -> subset -> implemented mask, rejected -> error -> implemented mask); for the types with Synchronize handler one stub synchronized six times in a row: split -> one message -> cut short after 3 messages -> split with failing handler -> cut short after 1 message -> one message",
 		"types":     len(registry),
 		"cases":     cases,
 		"sessions":  sessions,
